@@ -35,6 +35,16 @@ Theorem expr_adjoint_sound_complex : forall e : oexpr (R * R), wf leaf_ok e ->
 Proof. exact (expr_adjoint_sound_flat cring_ok_C). Qed.
 Print Assumptions expr_adjoint_sound_complex.
 
+(* The premise in the form the correspondence checks on every case: the boolean structural check
+   [wfb e] (evaluated by Coq on the expression read off each ODL operator object, see C05/Corr.v:check_wf)
+   together with the leaves being good implies [wf leaf_ok e], hence the identity. *)
+Theorem wfb_gives_wf_real : forall (P : leaf R -> Prop) (e : oexpr R),
+  wfb e = true -> Forall P (leaves e) -> wf P e.
+Proof. exact (wf_of_wfb cring_ok_R). Qed.
+Theorem wfb_gives_wf_complex : forall (P : leaf (R * R) -> Prop) (e : oexpr (R * R)),
+  wfb e = true -> Forall P (leaves e) -> wf P e.
+Proof. exact (wf_of_wfb cring_ok_C). Qed.
+
 (* T1 (A.adjoint.adjoint acts like A, all trees): whenever the expression and the expression
    returned as its adjoint are both well-formed with good leaves, and the weights are real
    and invertible, the double adjoint evaluates like the operator itself (uniqueness of the
